@@ -40,7 +40,7 @@ def gen(rng, tier):
             "lib_inputs": rng.random() < 0.3, "settle": 30.0}
     nclients = rng.choice([2, 2, 3])
     clients = []
-    triggers = ["call-enter", "call-exit", "poll-enter", "poll-final", "cb-enter"]
+    triggers = ["call-enter", "call-exit", "poll-enter", "poll-final", "cb-enter", "pre-complete", "fn-enter"]
     for c in range(nclients):
         ops = []
         for _ in range(rng.choice([1, 2, 3, 4])):
@@ -55,15 +55,18 @@ def gen(rng, tier):
         clients.append(ops)
     if rng.random() < 0.5:
         clients[0].insert(0, [rng.choice(["cb", "cb", "cbraise"])])   # a callback registered up front
-    if rng.random() < 0.2:
+    if rng.random() < 0.35:
         # window family: callbacks registered first, then a cancel() placed inside a window of user
         # code (callable / poll function / another callback running), racing whatever completes the
         # future there; a second client observes or waits
-        t1 = rng.choice(triggers)
-        clients = [[["cb"]] * rng.choice([1, 2]) + [["await", t1], ["cancel"]],
-                   [["await", rng.choice(triggers)], [rng.choice(["cb", "cancel", "result", "done", "wait"])]]]
+        own = ["fn-enter", "pre-complete"] if kind in ("f_map", "f_flat_map", "map", "flat_map") else ["pre-complete"] if kind in COMB_SUBJECTS else (["poll-final", "poll-enter", "call-exit"] if kind == "poll" else ["call-exit", "call-exit", "call-enter"])
+        t1 = rng.choice(own + own + triggers)
+        clients = [[["cb"]] * rng.choice([0, 1, 2]) + [["await", t1], [rng.choice(["cancel", "cancel", "cb", "cbraise"])]],
+                   [["await", rng.choice(own + triggers)], [rng.choice(["cb", "cb", "cancel", "result", "done", "wait"])]]]
     spec["clients"] = clients
     spec["sim"] = runner.draw_sim_cfg(rng, est=500, stall_ok=True)
+    if any(op[0] == "await" for ops in clients for op in ops):
+        runner.prefer_place(spec["sim"], 0.5)
     spec["sim"]["horizon_s"] = 30000
     return spec
 
@@ -105,6 +108,16 @@ def make_subject(spec, env):
             raise env.exc(("w", calls[0]), "ErrA")
         return ("w", calls[0])
 
+    def mfn(tag, wrap=None):
+        """a mapping function that is a pre-emptible window of user code (trigger fn-enter)"""
+        def fn(x):
+            env.rec("fn", tag)
+            env.hit("fn-enter")
+            sim.yield_point("user-fn")
+            v = (tag, x)
+            return wrap(v) if wrap is not None else v
+        return fn
+
     if kind in EXEC_SUBJECTS:
         spy = SpyExecutor(env, n=1)
         env.objs["spy"] = spy
@@ -120,9 +133,9 @@ def make_subject(spec, env):
         if kind == "retry":
             ex = Executors.with_retry(spy, max_attempts=3, sleep=0.05)
         elif kind == "map":
-            ex = Executors.with_map(spy, fn=lambda x: ("m", x))
+            ex = Executors.with_map(spy, fn=mfn("m"))
         elif kind == "flat_map":
-            ex = Executors.with_flat_map(spy, fn=lambda x: F.f_return(("fm", x)))
+            ex = Executors.with_flat_map(spy, fn=mfn("fm", F.f_return))
         elif kind == "poll":
             seen = {}
 
@@ -175,9 +188,9 @@ def make_subject(spec, env):
     elif kind == "f_traverse":
         f = F.f_traverse(lambda x: x, ins)
     elif kind == "f_map":
-        f = F.f_map(ins[0], lambda x: ("m", x))
+        f = F.f_map(ins[0], mfn("m"))
     elif kind == "f_flat_map":
-        f = F.f_flat_map(ins[0], lambda x: ins[1] if n > 1 else F.f_return(("fm", x)))
+        f = F.f_flat_map(ins[0], mfn("fm", (lambda v: ins[1]) if n > 1 else F.f_return))
     elif kind == "f_apply":
         f = F.f_apply(F.f_return(lambda *a: ("app",) + a), *ins)
     elif kind == "f_nocancel":
@@ -201,6 +214,8 @@ def make_subject(spec, env):
                 env.sleep(at - t)
                 t = at
             r = raw[i]
+            env.hit("pre-complete")
+            sim.yield_point("user")
             try:
                 if spec["end"] == "ext-cancel" and i == 0:
                     env.rec("ext-cancel", i)
